@@ -86,6 +86,8 @@ def run(ctx):
     for ci in range(ncfg):
         cname, burgers, xi, hkl, kind = SYSTEMS[ci % len(SYSTEMS)]
         m, n = MN[(ci // len(SYSTEMS)) % len(MN)] if ci >= len(SYSTEMS) else MN[ci % 2]
+        if ci == len(SYSTEMS) + 1:
+            m, n = 'y', 'x'          # one anti-cyclic assignment in every tier (known findings of DESIGN 6.2 live there)
         if cname == 'hcp0':
             m, n = 'y', 'z'
         ucell, basis, dd = U[cname]
@@ -103,6 +105,16 @@ def run(ctx):
         if uv.shape[1] == 4:
             uv = np.array([[r[0] - r[2], r[1] - r[2], r[3]] for r in uv])
         detuvw = int(round(abs(np.linalg.det(uv))))
+        # the rotation that takes the rotated cell back onto the crystal, derived from the rotated cell itself (rows of its box are
+        # the lattice vectors uvws); the reference system is judged through the rotation it really has, and Dislocation.transform
+        # (the frame in which the elastic solution is evaluated) has to be that rotation -- for the anti-cyclic m/n assignments
+        # (m='y',n='x' etc.) it once differed by a half turn about the slip-plane normal (fix in DESIGN 6.1)
+        ucp = d.ucell_prim if hasattr(d, 'uvws_prim') and d.uvws_prim is not None and hasattr(d, 'ucell_prim') else ucell
+        Teff = (np.linalg.inv(uv @ ucp.box.vects) @ d.rcell.box.vects).T
+        if not np.allclose(Teff @ Teff.T, np.identity(3), atol=1e-8):
+            Teff = np.asarray(d.transform)
+        if cname != 'hcp0' and not np.allclose(Teff, np.asarray(d.transform), atol=1e-8):
+            ctx.violation('the elastic solution is evaluated in a frame that is not the orientation of the rotated crystal (%s m/n assignment)' % ('cyclic' if (m, n) in (('y', 'z'), ('x', 'y'), ('z', 'x')) else 'anti-cyclic'), tag)
         for variant in range(2 if quick else 3):
             # shift indices: a non-zero one first, then an explicit 0 on the SAME object (the periodic array is generated first)
             si = [len(d.shifts) - 1, 0, int(rng.integers(0, len(d.shifts)))][variant]
@@ -121,8 +133,8 @@ def run(ctx):
                 full = d.rcell.supersize(*[(0, mults[i]) if i == line else (-mults[i] // 2, mults[i] // 2) for i in range(3)])
                 base, disl = d.periodicarray(sizemults=list(mults), shiftindex=si, center=center, boundarywidth=width, return_base_system=True)
                 # cell rows in lattice coordinates (x4): (box.vects @ transform) expressed in the unit cell's vectors
-                rows = (np.array([full.box.vects[i] for i in range(3)]) @ d.transform) @ np.linalg.inv(ucell.box.vects)
-                newrows = (disl.box.vects @ d.transform) @ np.linalg.inv(ucell.box.vects)
+                rows = (np.array([full.box.vects[i] for i in range(3)]) @ Teff) @ np.linalg.inv(ucell.box.vects)
+                newrows = (disl.box.vects @ Teff) @ np.linalg.inv(ucell.box.vects)
                 r4, ok1 = to_int(rows * 12, 1, tol=1e-6)
                 n4, ok2 = to_int(newrows * 12, 1, tol=1e-6)
                 if not (ok1 and ok2):
@@ -132,7 +144,7 @@ def run(ctx):
                 if nl.coord.max() > 0:
                     k = int(np.argmax(nl.coord))
                     mind = float(np.min(disl.dmag(k, nl[k])))
-                pa = (base.atoms.pos - d.shifts[si]) @ d.transform
+                pa = (base.atoms.pos - d.shifts[si]) @ Teff
                 rela = ucell.box.position_cartesian_to_relative(pa) * dd
                 xa, oka = to_int(rela, 1, tol=1e-6)
                 refa = [xa[k] + [int(base.atoms.atype[k])] for k in range(base.natoms)]
@@ -155,7 +167,7 @@ def run(ctx):
                 res = disl.atoms.pos - base.atoms.pos - u
                 period = np.linalg.norm(base.box.vects[line])
                 # reference crystal in lattice coordinates of the unit cell
-                po = (base.atoms.pos - d.shifts[si]) @ d.transform          # the REQUESTED shift, not whatever the object holds
+                po = (base.atoms.pos - d.shifts[si]) @ Teff          # the REQUESTED shift, not whatever the object holds
                 rel = ucell.box.position_cartesian_to_relative(po) * dd
                 xi_, ok = to_int(rel, 1, tol=1e-6)
                 ref = [xi_[k] + [int(base.atoms.atype[k])] for k in range(base.natoms)]
@@ -216,6 +228,11 @@ def run(ctx):
                     refusals += 1
                 else:
                     ctx.violation('monopole raised ValueError (%s)' % str(e)[:40], repr(e)[:200] + ' ' + vtag)
+            except AssertionError as e:
+                if 'radius must be positive' in str(e):          # the boundary width leaves no cylinder in this small system: refusal
+                    refusals += 1
+                else:
+                    ctx.violation('monopole raised AssertionError', repr(e)[:200] + ' ' + vtag)
             except Exception as e:
                 import traceback
                 tb = traceback.extract_tb(e.__traceback__)[-1]
@@ -246,6 +263,10 @@ def run(ctx):
         rec = b['record']
         t = rec['tag'].split(':')
         short = {k: v for k, v in rec.items() if k not in ('ref', 'res', 'dist', 'retyped', 'dtype', 'btype', 'oldid', 'basetype', 'fulltype')}
+        if t[3] in ('mynx', 'mxnz', 'mzny') and rec['ev'] == 'array' and b['clause'] == 'overlapping_atoms_across_the_periodic_directions':
+            # one finding for the whole input class (anti-cyclic m/n assignment), whatever crystal and character it shows up with
+            ctx.violation('array[anti-cyclic m/n assignment]: overlapping_atoms_across_the_periodic_directions', json.dumps(short, default=tlc._np)[:1200], {'file': b['file'], 'line': b['l']})
+            continue
         ctx.violation('%s[%s,%s,%s]: %s' % (rec['ev'], t[1], t[2], t[3], b['clause']), json.dumps(short, default=tlc._np)[:1200], {'file': b['file'], 'line': b['l']})
     for ev in ('array', 'disreg'):
         rr = [r_ for r_ in recs if r_['ev'] == ev]
